@@ -591,6 +591,8 @@ func (c *Context) onKilled(message *vivid.OnKilled, behavior vivid.Behavior) {
 		handler.prepareSelfKilledMessage()
 		handler.restarting = false
 		handler.cleanupIfNotRestarting()
+		// 僵尸已被释放：此后不再是僵尸，后续消息按已终止的 Actor 处理（进入死信），避免重复宣告终止
+		c.zombie = false
 		return
 	}
 
